@@ -701,7 +701,21 @@ func Redetect(p *load.Program, r *report.Report, opt ResetOptions, R map[string]
 		}
 	}
 	if call == nil {
-		r.Unknown(rule, key, p.Pos(np.Pos()), "NextPacket no longer calls newPacketBuffer")
+		// the lazy construction may live in a helper NextPacket calls on its own receiver (`dmx.currentPacketBuffer()`)
+		for _, ci := range ssau.Calls(np) {
+			h := ci.Common().StaticCallee()
+			if h == nil || h.Pkg != np.Pkg || len(h.Blocks) == 0 || len(ci.Common().Args) == 0 || len(np.Params) == 0 || ci.Common().Args[0] != ssa.Value(np.Params[0]) {
+				continue
+			}
+			for _, hi := range ssau.Calls(h) {
+				if c, ok := hi.(*ssa.Call); ok && c.Call.StaticCallee() == npb {
+					call = c
+				}
+			}
+		}
+	}
+	if call == nil {
+		r.Unknown(rule, key, p.Pos(np.Pos()), "NextPacket no longer calls newPacketBuffer (directly or through a helper on its receiver)")
 		return
 	}
 	guarded := false
